@@ -8,16 +8,24 @@ package simrt
 // replay mode they are read from a recorded list (value mod n, 0 when
 // exhausted). Only the scheduler / root goroutine may use it.
 type Tape struct {
-	Replay   []int
+	Replay   []int // generation stream (scenario, configuration, faults)
+	ReplayS  []int // schedule stream (task choice, select order, ticks, map orders)
 	replay   bool
 	pos      int
+	posS     int
 	Rec      []int
+	RecS     []int
 	state    uint64
 	inc      uint64
 	Strategy int // schedule strategy for ChooseSched in search mode
 	StickyP  int // percent chance to keep running the same task (strategy 1)
 	Overrun  int // draws past the end of a replayed tape
+	Marks    []int // positions in the generation stream where an operation starts
 }
+
+// Mark notes that a new operation starts at the current position of the
+// generation stream (a hint for the shrinker: whole operations can be deleted).
+func (t *Tape) Mark() { t.Marks = append(t.Marks, len(t.Rec)) }
 
 // NewTape returns a search-mode tape.
 func NewTape(seed, run uint64) *Tape {
@@ -30,9 +38,30 @@ func NewTape(seed, run uint64) *Tape {
 	return t
 }
 
-// NewReplayTape returns a tape that replays vals.
-func NewReplayTape(vals []int) *Tape {
-	return &Tape{Replay: vals, replay: true}
+// NewReplayTape returns a tape that replays the two recorded streams.
+func NewReplayTape(gen, sched []int) *Tape {
+	return &Tape{Replay: gen, ReplayS: sched, replay: true}
+}
+
+// ChooseS draws from the schedule stream.
+func (t *Tape) ChooseS(n int, label string) int {
+	if n <= 0 {
+		n = 1
+	}
+	var v int
+	if t.replay {
+		if t.posS < len(t.ReplayS) {
+			v = t.ReplayS[t.posS] % n
+			if v < 0 {
+				v = -v
+			}
+		}
+		t.posS++
+	} else {
+		v = t.raw(n)
+	}
+	t.RecS = append(t.RecS, v)
+	return v
 }
 
 func (t *Tape) next() uint32 {
@@ -90,7 +119,7 @@ func (t *Tape) Bool(pct int, label string) bool {
 // task (or the lowest id)". The distribution depends on the run's strategy.
 func (t *Tape) ChooseSched(n int) int {
 	if t.replay {
-		return t.Choose(n, "sched")
+		return t.ChooseS(n, "sched")
 	}
 	v := 0
 	switch t.Strategy {
@@ -105,7 +134,7 @@ func (t *Tape) ChooseSched(n int) int {
 	default: // uniform
 		v = t.raw(n)
 	}
-	t.Rec = append(t.Rec, v)
+	t.RecS = append(t.RecS, v)
 	return v
 }
 
